@@ -896,6 +896,9 @@ fn main() {
                         let mut sim = Sim::from_listing(&o.before);
                         let done = pp.ops().iter().take_while(|op| spec_op(&mut sim, op).is_ok()).count();
                         res.bump(&format!("ops_applied_before_failure={}", done.min(6)));
+                        if done >= 1 {
+                            res.bump(&format!("rollback_of_applied_ops_error_kind={}", match o.code { 2 => "notfound", 3 => "exists", 4 => "invalid-data", 5 => "invalid-input", 6 => "is-a-directory", 7 => "not-a-directory", 8 => "invalid-filename", _ => "other" }));
+                        }
                     }
                 }
                 let nontrivial = !o.before.is_empty() && Patch::parse(&c.patch).map(|p| !p.ops().is_empty()).unwrap_or(false);
